@@ -376,7 +376,76 @@ func c05AllIDs(c *Ctx) {
 		try(e, "WITH", e)
 		try("MIT", "AND", e)
 	}
-	c.Bound("all_ids", map[string]any{"license_ids": len(t.AllLicenseIDs()), "exception_ids": len(t.Exceptions), "forms_per_license": 9, "forms_per_exception": 6})
+	// stems: texts X that are on no list themselves although X-only / X-or-later is listed
+	// (GFDL-1.2-invariants ...). X is an unknown id, so is X+; the listed forms stay valid.
+	stems := listedSuffixStems()
+	for _, x := range stems {
+		for _, form := range [][]string{{x}, {x, "+"}, {x + "-only"}, {x + "-or-later"}, {"(", x, "+", ")"}, {x, "+", "WITH", "Bison-exception-2.2"}, {"MIT", "AND", x, "+"}, {"MIT", "OR", x}} {
+			idx++
+			if !c.Mine(idx) {
+				continue
+			}
+			seq := toks(form)
+			hasPlus := false
+			for _, f := range form {
+				if f == "+" {
+					hasPlus = true
+				}
+			}
+			for _, rn := range []string{"loose", "tight"} {
+				text := renderBy(rn, seq)
+				if !c.FirstTime(text) || !c.Begin(text) {
+					continue
+				}
+				msg, out := c05Check(seq, text)
+				c.Inc("states")
+				c.Inc("transitions")
+				c.Inc("evaluations")
+				c.Inc("stem_cases")
+				c.Inc("traces")
+				c.Inc("nontrivial")
+				c.Outcome("stems:" + out)
+				if msg != "" {
+					dir, key := "rejects-valid", text
+					if strings.Contains(msg, "accepts") {
+						dir = "accepts-invalid"
+						if hasPlus {
+							// one finding per stem: '<stem>+' is accepted, in whatever context
+							key = "stem-plus:" + x
+						}
+					}
+					c.Report(Violation{Kind: "c05.seq", Class: "stems:" + dir, Key: key, Msg: msg, Size: len(text), Case: mustJSON(c05Case{Tokens: tokTexts(seq), Render: rn, Text: text})})
+				}
+			}
+		}
+	}
+	c.Bound("all_ids", map[string]any{"license_ids": len(t.AllLicenseIDs()), "exception_ids": len(t.Exceptions), "forms_per_license": 9, "forms_per_exception": 6, "stems_listed_only_with_suffix": stems, "forms_per_stem": 8})
+}
+
+// listedSuffixStems: every X such that X-only or X-or-later is a listed license id and X is on no list.
+func listedSuffixStems() []string {
+	t := T()
+	seen := map[string]bool{}
+	var out []string
+	for _, id := range t.AllLicenseIDs() {
+		for _, suf := range []string{"-only", "-or-later"} {
+			if !strings.HasSuffix(id, suf) {
+				continue
+			}
+			x := strings.TrimSuffix(id, suf)
+			if seen[x] {
+				continue
+			}
+			_, a := t.IsActive(x)
+			_, d := t.IsDepr(x)
+			_, e := t.IsExc(x)
+			if !a && !d && !e {
+				seen[x] = true
+				out = append(out, x)
+			}
+		}
+	}
+	return out
 }
 
 // c05LongFamilies: size-parameterised valid sentences (as token lists). The short-sequence sweep
